@@ -145,7 +145,9 @@ impl Run {
         let waker = self.flag.waker();
         let mut cx = Context::from_waker(&waker);
         let fut = self.fut.as_mut().unwrap();
+        selium_verif_harness::POLL_SEQ.fetch_add(1, std::sync::atomic::Ordering::SeqCst);
         let r = catch_unwind(AssertUnwindSafe(|| fut.as_mut().poll(&mut cx)));
+        selium_verif_harness::POLL_SEQ.fetch_add(1, std::sync::atomic::Ordering::SeqCst);
         let inner = self.log.take_inner();
         match r {
             Ok(Poll::Pending) => self.log.emit("poll_end", json!({"res": "pending", "inner": inner})),
@@ -538,8 +540,10 @@ fn main() {
     }
     let mut summary: Vec<Value> = vec![];
     let (mut dead_runs, mut executed) = (0usize, 0usize);
+    selium_verif_harness::start_watchdog(log.clone(), schedules.len());
     for (k, s) in schedules.iter().enumerate() {
         log.reset(k as u64 + 1, json!({"sched": s.id}));
+        selium_verif_harness::CUR_RUN.store(k as u64 + 1, std::sync::atomic::Ordering::SeqCst);
         let mut run = Run::new(log.clone(), seed.wrapping_add(k as u64));
         // every fourth schedule runs with the clock jumping ahead between its steps: by seconds, by minutes,
         // by hours (seconds first so that short and long limits are both crossed with an operation in between)
